@@ -567,12 +567,17 @@ func (d *dataCloser) Close() error {
 
 	expectedResponses := len(d.c.rcpts)
 	if d.c.lmtp {
+		// Without a status callback the first per-recipient failure is
+		// reported by Close itself instead of being lost.
+		var firstErr error
 		for expectedResponses > 0 {
 			rcpt := d.c.rcpts[len(d.c.rcpts)-expectedResponses]
 			if _, _, err := d.c.readResponse(250); err != nil {
 				if smtpErr, ok := err.(*SMTPError); ok {
 					if d.statusCb != nil {
 						d.statusCb(rcpt, smtpErr)
+					} else if firstErr == nil {
+						firstErr = smtpErr
 					}
 				} else {
 					return err
@@ -582,6 +587,7 @@ func (d *dataCloser) Close() error {
 			}
 			expectedResponses--
 		}
+		return firstErr
 	} else {
 		_, _, err := d.c.readResponse(250)
 		if err != nil {
